@@ -27,13 +27,13 @@ CONFIG = {
         '13 centre elements x charge -2..+2 x radical x multisets of <= 3 bonds over 12 (order, neighbour) types'],
         'floors': {'evaluations': 60000, 'distinct_nontrivial': 20000, 'env.exhaustive': 50000, 'oracle.table-interpreter': 60000,
                    'oracle.rdkit-both-defined': 8000, 'totals.compared': 700, 'aromatic-atoms.compared': 3000,
-                   'totals.after-label-edit': 400, 'bracket-states.listed': 1200}},
+                   'totals.after-label-edit': 400, 'bracket-states.listed': 1200, 'partly-explicit-h.molecules': 1000}},
     'thorough': {'shards': 16, 'budget_s': 1800, 'maxbonds': 4, 'n_corpus': 4200, 'all_elements': True, 'exhaustive_subspaces': [
         '13 centre elements x charge -2..+2 x radical x multisets of <= 4 bonds over 12 (order, neighbour) types',
         'the other 104 elements x charge -2..+2 x radical x multisets of <= 3 bonds'],
         'floors': {'evaluations': 300000, 'distinct_nontrivial': 100000, 'env.exhaustive': 230000,
                    'oracle.table-interpreter': 300000, 'oracle.rdkit-both-defined': 30000, 'totals.compared': 3000,
-                   'aromatic-atoms.compared': 15000, 'totals.after-label-edit': 1500, 'bracket-states.listed': 1200}},
+                   'aromatic-atoms.compared': 15000, 'totals.after-label-edit': 1500, 'bracket-states.listed': 1200, 'partly-explicit-h.molecules': 3000}},
 }
 SYM2Z = {}
 
@@ -258,6 +258,7 @@ def check_molecule(ctx, m, src, rng, strict_states=True):
         if abs(m.molecular_mass - mass) > 1e-6 or abs(float(m) - mass) > 1e-6:
             ctx.violation('mass-is-not-the-sum-over-atoms', '%s: %r vs %r' % (src, m.molecular_mass, mass), w)
         totals_after_label_edit(ctx, m, src, rng)
+        partly_explicit_hydrogens(ctx, m, src, rng)
         if err == Chem.SANITIZE_NONE:
             try:
                 f = rdMolDescriptors.CalcMolFormula(rm)
@@ -319,6 +320,48 @@ def bracket_states(ctx):
                                           '%s: the tables list %s charge %+d bonds %s with %d H; read as H=%r radical=%r%s'
                                           % (text, csym, charge, list(env), hs, a.implicit_hydrogens, a.is_radical, ' (written count overridden)' if flagged else ''),
                                           {'smiles': text})
+
+
+def partly_explicit_hydrogens(ctx, m, src, rng):
+    """some hydrogens of an atom drawn as atoms, the rest left implicit; folding them back (implicify_hydrogens) must give every atom
+    the count it had, and while they are drawn the heavy atom's implicit count is the total minus the drawn ones"""
+    from rt import gen as G
+    if any(b.order == 4 for *_, b in m.bonds()):
+        return
+    cand = [n for n, a in m.atoms() if a.atomic_number != 1 and (a.implicit_hydrogens or 0) >= 1]
+    if not cand:
+        return
+    c = m.copy()
+    G._fix_slots(c)
+    want = {n: a.implicit_hydrogens for n, a in c.atoms()}
+    chosen = rng.sample(cand, min(len(cand), rng.randrange(1, 4)))
+    drawn = {}
+    try:
+        for n in chosen:
+            k = rng.randrange(1, want[n] + 1)
+            for _ in range(k):
+                h = c.add_atom('H')
+                c.add_bond(n, h, 1)
+            drawn[n] = k
+    except Exception:
+        return
+    ctx.count('partly-explicit-h.molecules')
+    ctx.evaluations += 1
+    w = {'smiles': src, 'drawn': sorted(drawn.items())}
+    for n, k in drawn.items():
+        if c._atoms[n].implicit_hydrogens != want[n] - k:
+            ctx.violation('hydrogen-count-wrong-with-drawn-hydrogens', '%s atom %d: %d of %d hydrogens drawn, implicit count %r' % (
+                src, n, k, want[n], c._atoms[n].implicit_hydrogens), w)
+            return
+    try:
+        c.implicify_hydrogens()
+    except Exception as e:
+        ctx.violation('implicify-raises/%s' % type(e).__name__, '%s with drawn hydrogens %s: %r' % (src, sorted(drawn.items()), e), w)
+        return
+    got = {n: a.implicit_hydrogens for n, a in c.atoms()}
+    if got != want:
+        bad = [(n, want.get(n), got.get(n)) for n in set(want) | set(got) if want.get(n) != got.get(n)][:3]
+        ctx.violation('hydrogen-count-wrong-after-folding-drawn-hydrogens', '%s, drawn %s: (atom, expected, got) %s' % (src, sorted(drawn.items()), bad), w)
 
 
 def sums_over_atoms(m):
